@@ -212,6 +212,12 @@ def _enumerate(eng, args, kwargs, node):
     start = args[1] if len(args) > 1 else kwargs.get('start', 0)
     if isinstance(src, GenResult):
         src = src.items
+    if isinstance(src, Obj):
+        m = eng.find_method(src, '__iter__')
+        if m is not None:
+            src = eng.call_function(m, [], {})
+            if isinstance(src, GenResult):
+                src = src.items
     if isinstance(src, (SymSeq, SymRange)) or hasattr(src, 'vc_indexable'):
         return EnumerateView(eng.as_indexable(src), start)
     items = eng.iterate_concrete(src)
@@ -402,6 +408,8 @@ def _reversed(eng, args, kwargs, node):
 
 
 def _iter(eng, args, kwargs, node):
+    if hasattr(args[0], 'vc_indexable'):
+        return args[0]
     return IterObj(eng.iterate_concrete(args[0]))
 
 
